@@ -527,7 +527,7 @@ ldb_mutex_unlock(ldb_mutex_t *m) {
 /* ---- pre-state ------------------------------------------------------------ */
 static void
 vp_build(void) {
-  int i, j, b;
+  int i, j, b, d = 0;
   lru_shard_t *sh;
 #ifdef VP_API
   for (i = 0; i < LDB_SHARDS; i++) {
@@ -580,7 +580,8 @@ vp_build(void) {
        3 = erased from the cache but still referenced by 1..2 clients.
        A symbolic class makes every list pointer symbolic (measured: 25x). */
     {
-      int d = VP_SHAPE, q, extra = vp_bool();
+      int q, extra = vp_bool();
+      d = VP_SHAPE;
       for (q = j + 1; q < VP_E; q++)
         d /= 10;
       d %= 10;
@@ -604,7 +605,7 @@ vp_build(void) {
     e->next_hash = NULL;
     if (g_in[j]) {
       int front = vp_bool();
-      if (g_refs[j] == 1) {
+      if (d == 1) {   /* branch on the concrete class, not on the (symbolic) refs */
         lru_shard_append(&sh->list, e);
         g_lru[g_nlru++] = j;
       } else {
@@ -655,8 +656,8 @@ harness(void) {
   VP_ASSERT(h != NULL && h == ent[VP_E], "insert returns the new entry");
   VP_ASSERT(ldb_lru_value(h) == (void *)&vp_valobj[VP_E], "handle carries the value");
   VP_ASSERT(vp_locks[VP_S] == 1, "C10.b insert takes the key's shard mutex once");
-#if VP_E > 0
-  if (g_live[0] == 0) VP_WITNESS("insert-freed-old");
+#ifdef VP_W_FREED
+  VP_WITNESS("insert-with-free-possible");
 #endif
 #elif VP_OP == VP_OP_LOOKUP
 #ifdef VP_API
@@ -672,7 +673,7 @@ harness(void) {
     for (j = 0; j < VP_E; j++)
       if (j == exp_lookup)
         VP_ASSERT(h == ent[j], "lookup: the cached entry with that key");
-#if VP_E > 0
+#ifdef VP_W_HIT
     VP_WITNESS("lookup-hit");
 #endif
   }
@@ -691,10 +692,14 @@ harness(void) {
   lru_shard_release(&vp_shard, h);
 #endif
   VP_ASSERT(vp_locks[VP_S] == 1, "C10.b release takes the entry's shard mutex once");
+#ifdef VP_W_RELLAST
   for (j = 0; j < VP_E; j++)
     if (j == op_h && !g_live[j]) VP_WITNESS("release-last");
+#endif
+#ifdef VP_W_RELLRU
   for (j = 0; j < VP_E; j++)
-    if (j == op_h && g_live[j] && g_refs[j] == 1) VP_WITNESS("release-to-lru");
+    if (j == op_h && g_live[j] && g_in[j] && g_refs[j] == 1) VP_WITNESS("release-to-lru");
+#endif
 #elif VP_OP == VP_OP_ERASE
 #ifdef VP_API
   ldb_lru_erase(&vp_lru, &key);
@@ -754,7 +759,7 @@ harness(void) {
   for (j = 0; j < VP_NE; j++)
     VP_ASSERT(vp_freed[j] == (ent[j] != NULL && !g_live[j]), "C10.b freed exactly the entries whose last reference went");
   VP_ASSERT(vp_deleter_locked, "deleter runs inside the shard's critical section (LevelDB behaviour)");
-#if VP_E > 0 && (VP_OP == VP_OP_INSERT || VP_OP == VP_OP_RELEASE || VP_OP == VP_OP_ERASE || VP_OP == VP_OP_PRUNE)
+#ifdef VP_W_FREED
   for (j = 0; j < VP_E; j++)
     if (vp_freed[j]) VP_WITNESS("freed");
 #endif
